@@ -209,6 +209,19 @@ func (m *Machine) indexAddr(f *frame, x *ssa.IndexAddr) Value {
 	var off, n int
 	switch b := base.(type) {
 	case Ptr: // pointer to array
+		if len(b.alts) > 0 {
+			// guarded choice of arrays: extend every alternative (concrete index only)
+			k, ok := concreteInt(idxV)
+			nn := int(x.X.Type().Underlying().(*types.Pointer).Elem().Underlying().(*types.Array).Len())
+			if !ok {
+				panic("symbolic index through a guarded pointer")
+			}
+			if k < 0 || k >= nn {
+				m.oblige(m.cbool(false), fmt.Sprintf("index out of range [%d] with length %d", k, nn), m.prog.Fset.Position(x.Pos()).String())
+				m.fail("index")
+			}
+			return ptrExtend(b, PathElem{k: k})
+		}
 		if b.obj == nil {
 			m.oblige(m.cbool(false), "nil pointer dereference", m.prog.Fset.Position(x.Pos()).String())
 			m.fail("nil")
@@ -229,7 +242,18 @@ func (m *Machine) indexAddr(f *frame, x *ssa.IndexAddr) Value {
 		return Ptr{obj: obj, path: append(path, PathElem{k: off + k})}
 	}
 	if m.intMode {
-		panic("int mode: symbolic index")
+		// symbolic index in the integer encoding: a guarded choice among the n element addresses
+		if n > 256 {
+			panic("int mode: symbolic index into more than 256 elements")
+		}
+		il := idxV.(VInt).lin
+		m.oblige(cAnd(cCmp("<=", linConstI(0), il), cCmp("<", il, linConstI(int64(n)))), fmt.Sprintf("index in range (len %d)", n), m.prog.Fset.Position(x.Pos()).String())
+		m.cur.pc = append(m.cur.pc, cAnd(cCmp("<=", linConstI(0), il), cCmp("<", il, linConstI(int64(n)))))
+		r := Ptr{}
+		for k := 0; k < n; k++ {
+			r.alts = append(r.alts, PtrAlt{g: cCmp("=", il, linConstI(int64(k))), p: Ptr{obj: obj, path: append(append([]PathElem{}, path...), PathElem{k: off + k})}})
+		}
+		return r
 	}
 	iv := idxV.(VInt).bv
 	_, signed, _ := intInfo(x.Index.Type())
